@@ -54,6 +54,22 @@ Proof.
 Qed.
 Print Assumptions C12_no_server_fault.
 
+(* The same for a handler that reads two properties in a row on one request
+   (process_seq: each property is a function of the request; the caches only
+   memoise; a first access that fails ends the request). *)
+Theorem C12_no_server_fault_two_accesses :
+  forall jk cfg ctype fr s pre a,
+    Forall scalar ctype -> content_length fr <> None ->
+    forall w, process_seq jk cfg ctype fr s pre a <> ServerFault w.
+Proof.
+  intros jk cfg ctype fr s pre a Hc Hcl. apply process_seq_no_fault.
+  - exact Hc.
+  - exact Hcl.
+  - intros cl. apply read_parts_terminates.
+  - intros B parts. apply markup_chunks_ok.
+Qed.
+Print Assumptions C12_no_server_fault_two_accesses.
+
 (* ... and every Client response is a 4xx *)
 Theorem C12_client_codes_4xx :
   forall cls, exists c, raise_ cls = Client c /\ (400 <= c < 500)%Z.
